@@ -243,6 +243,21 @@ CLAIMED["C11"] = dict(
          "INITIAL value of each attribute (covered by run/reset/run equality on generated models, incl. a valve with initial setting 0).",
     technique="Coq proof (frame theorem over write histories; finite table checks on translator-regenerated write sets) + behavioural differential")
 
+CLAIMED["C10"] = dict(
+    text="Proof over Lib/Sched.v (one solved step iterated): more fuel never changes a finished run; pausing at ANY duration D1 and "
+         "continuing from the state kept in the model gives exactly the uninterrupted trace (induction; several pauses by iteration); a "
+         "new simulator object recomputes its rule index from the last solved time, and the continued run equals the uninterrupted one "
+         "whenever that index equals the paused one (partial: this loop invariant is checked on every case, not proved); with the index "
+         "restarted at 0 (the behaviour before the fix) the model provably steps back to t = 0. Ties decided inside coqc: for generated "
+         "time-driven configurations the concatenated (time, status) trace of real runs paused at 1-3 grid points, with/without pickle, "
+         "continued with NEW simulator objects equals the model's uninterrupted trace, and the invariant holds at every pause. Property "
+         "on the implementation with hydraulics: uninterrupted vs paused+continued runs of generated networks (tanks, controls, rules, "
+         "leaks, isolated parts) have the same strictly increasing index and the same heads/demands/flows/statuses.",
+    ref="DESIGN.md section 5 C10",
+    note="Trusted: Coq kernel (axiom-free); harness; pickle modelled as identity (exercised). Modelled not verified: hydraulic state carried "
+         "across the pause (tank heads, statuses, leak status) -- covered by the behavioural comparison only; Newton's fresh initial guess.",
+    technique="Coq proof (induction over iterated steps with fuel monotonicity) + exact trace correspondence + behavioural differential")
+
 NOT_YET = {
 }
 
